@@ -201,15 +201,31 @@ type c13case struct {
 	smask    int
 	beh      int
 	enf      *kmip.ProtocolVersion
+	// history cases: a library server shared by the cases of one sequence (0 = fresh server per case);
+	// histDefault: the executor keeps its default version list (SetSupportedProtocolVersions not called)
+	hist        int
+	histDefault bool
 }
+
+// library servers kept alive across the cases of a history sequence
+var c13HistServers = map[int]*kmipserver.BatchExecutor{}
 
 func runC13(cs c13case, rng *h.Rand) (obs c13obs) {
 	client := subset(cs.cmask)
 	server := subset(cs.smask)
 	var exec *kmipserver.BatchExecutor
 	if cs.beh == bLibServer {
-		exec = kmipserver.NewBatchExecutor()
-		exec.SetSupportedProtocolVersions(append([]kmip.ProtocolVersion(nil), server...)...)
+		if cs.hist != 0 && c13HistServers[cs.hist] != nil {
+			exec = c13HistServers[cs.hist]
+		} else {
+			exec = kmipserver.NewBatchExecutor()
+			if !cs.histDefault {
+				exec.SetSupportedProtocolVersions(append([]kmip.ProtocolVersion(nil), server...)...)
+			}
+			if cs.hist != 0 {
+				c13HistServers[cs.hist] = exec
+			}
+		}
 	}
 	dial := func(ctx context.Context) (net.Conn, error) {
 		a, b := net.Pipe()
@@ -297,6 +313,14 @@ func driveC13(c *h.Ctx) error {
 				v := allVers[int(e)]
 				cs.enf = &v
 			}
+			if pre, ok := m["hist_prefix"].([]any); ok {
+				// a history case: replay the clients that were served before on the same server
+				def, _ := m["hist_default"].(bool)
+				for _, x := range pre {
+					cases = append(cases, c13case{cmask: int(x.(float64)), smask: cs.smask, beh: bLibServer, hist: 1, histDefault: def})
+				}
+				cs.hist, cs.histDefault = 1, def
+			}
 		}
 		cases = append(cases, cs)
 	} else {
@@ -312,9 +336,25 @@ func driveC13(c *h.Ctx) error {
 			}
 		}
 		c.Exhaustive(true)
+		// histories: ONE library server serving a sequence of clients with different configured sets
+		// (a restricted client first, then wider ones): the server's advertised set must not depend on
+		// who asked before.  Sequences on explicitly configured servers and on a default executor.
+		hid := 0
+		for _, sm := range []int{31, 30, 29, 23, 21, 14, 7, 31} {
+			for rep := 0; rep < c.Pick(2, 8); rep++ {
+				hid++
+				r := c.Rng.Fork(uint64(900000 + hid))
+				def := sm == 31 && rep%2 == 1
+				seq := []int{1 << r.Intn(5), 1 + r.Intn(31), 31, 1 + r.Intn(31), 1 << r.Intn(5), 31, 1 + r.Intn(31)}
+				for _, cm := range seq {
+					cases = append(cases, c13case{cmask: cm, smask: sm, beh: bLibServer, hist: hid, histDefault: def})
+				}
+			}
+		}
 	}
 	var rows []string
 	var srvRows []string
+	histPrefix := map[int][]int{}
 	for i, cs := range cases {
 		cs.Client = verStr(subset(cs.cmask))
 		cs.Server = verStr(subset(cs.smask))
@@ -329,12 +369,18 @@ func driveC13(c *h.Ctx) error {
 			}
 		}
 		obs := runC13(cs, c.Rng.Fork(uint64(i)))
-		key := fmt.Sprintf("%d/%d/%d/%d", cs.cmask, cs.smask, cs.beh, enfIdx)
+		key := fmt.Sprintf("%d/%d/%d/%d/%d", cs.cmask, cs.smask, cs.beh, enfIdx, cs.hist)
 		c.Eval(key, !(cs.cmask == 31 && cs.smask == 31))
 		c.Count("behaviour:" + cs.Behav)
 		caseJSON := map[string]any{"cmask": cs.cmask, "smask": cs.smask, "beh": cs.beh, "enf": enfIdx,
 			"client": cs.Client, "server": cs.Server, "behaviour": cs.Behav, "enforced": cs.Enforced,
-			"server_replied": verStr(obs.replied), "observed_ok": obs.ok, "observed_version": obs.adopted.String()}
+			"server_replied": verStr(obs.replied), "observed_ok": obs.ok, "observed_version": obs.adopted.String(), "history": cs.hist}
+		if cs.hist != 0 {
+			c.Count("history-case")
+			caseJSON["hist_prefix"] = append([]int{}, histPrefix[cs.hist]...)
+			caseJSON["hist_default"] = cs.histDefault
+			histPrefix[cs.hist] = append(histPrefix[cs.hist], cs.cmask)
+		}
 		if i%997 == 0 {
 			c.Sample(caseJSON)
 		}
